@@ -205,12 +205,12 @@ func pathString(p []keyElem) string {
 type tables struct {
 	// while a value handed to a literal table row's setter is followed: table -> row+1
 	rowCtx map[*ssa.Alloc]int
-	w    *World
-	pr   *prover
-	pw   map[*ssa.Function]*pwInfo
-	jsW  map[*ssa.Function][]*site
-	jsR  map[*ssa.Function][]*site
-	gobW map[*ssa.Function][]*site
+	w      *World
+	pr     *prover
+	pw     map[*ssa.Function]*pwInfo
+	jsW    map[*ssa.Function][]*site
+	jsR    map[*ssa.Function][]*site
+	gobW   map[*ssa.Function][]*site
 	// functions/closures that store into the property map under a key parameter
 	gobHelpers map[*ssa.Function][]gobHelper
 	gobR       map[*ssa.Function][]*site
@@ -340,25 +340,35 @@ func literalTableRowsOf(key ssa.Value) (rows []map[int]ssa.Value, kf int, table 
 		return nil, 0, nil, false
 	}
 	// the loop variable is a local that receives the whole element: prop := *(&table[i])
+	var arr ssa.Value
+	var arrayCopy *ssa.UnOp
 	if al, isAl := elemAddr.(*ssa.Alloc); isAl {
 		if sts := storesTo(al); len(sts) == 1 {
 			if ld, isLd := sts[0].Val.(*ssa.UnOp); isLd && ld.Op == token.MUL {
 				elemAddr = ld.X
+			} else if ix, isIx := sts[0].Val.(*ssa.Index); isIx {
+				// range over an array VALUE: t = *table; elem = t[i]
+				if cp, isCp := ix.X.(*ssa.UnOp); isCp && cp.Op == token.MUL {
+					if src, isSrc := cp.X.(*ssa.Alloc); isSrc {
+						arr, arrayCopy = src, cp
+					}
+				}
 			}
 		}
 	}
 	ia, isIA := elemAddr.(*ssa.IndexAddr)
-	if !isIA {
+	if !isIA && arr == nil {
 		return nil, 0, nil, false
 	}
-	var arr ssa.Value
-	switch x := ia.X.(type) {
-	case *ssa.Slice:
-		arr = x.X
-	case *ssa.Alloc:
-		arr = x
-	default:
-		return nil, 0, nil, false
+	if arr == nil {
+		switch x := ia.X.(type) {
+		case *ssa.Slice:
+			arr = x.X
+		case *ssa.Alloc:
+			arr = x
+		default:
+			return nil, 0, nil, false
+		}
 	}
 	al, isAlloc := arr.(*ssa.Alloc)
 	if !isAlloc {
@@ -419,6 +429,10 @@ func literalTableRowsOf(key ssa.Value) (rows []map[int]ssa.Value, kf int, table 
 			}
 		case *ssa.Slice:
 			// the slice the loop ranges over
+		case *ssa.UnOp:
+			if x != arrayCopy {
+				return nil, 0, nil, false
+			}
 		default:
 			return nil, 0, nil, false
 		}
